@@ -84,6 +84,13 @@ def scenarios(draw):
     f = draw(st.sampled_from(['absent', 1, 2]))
     if f != 'absent':
         obj['spec']['f'] = f
+    if draw(st.integers(0, 3)) == 0:
+        # a pure type change of an existing value: what Python calls equal (1 == True, 0 == False) JSON does not
+        muts = [h for h in handlers if h['type'] == 'mutating']
+        if muts:
+            key, old_v, new_v = draw(st.sampled_from([('a', 1, True), ('b', 0, False), ('c', True, 1), ('0', False, 0), ('a', [1, 0], [True, False])]))
+            obj['spec'][key] = old_v
+            draw(st.sampled_from(muts))['patch'].append({'zone': 'spec', 'path': [key], 'value': new_v})
     hint = draw(st.sampled_from([None, None, 'id', 'id', 'type']))
     sc = {'object': obj, 'handlers': handlers, 'operation': draw(st.sampled_from(OPERATIONS)),
           'subresource': draw(st.sampled_from([None, None, 'status', 'scale'])),
@@ -150,7 +157,7 @@ def library_diff_is_wrong(src, dst):
         out = jsonpatch.JsonPatch.from_diff(copy.deepcopy(src), copy.deepcopy(dst)).apply(copy.deepcopy(src))
     except Exception:
         return True
-    return out != dst
+    return json.dumps(out, sort_keys=True) != json.dumps(dst, sort_keys=True)      # (JSON equality: the library compares lists with ==, and [1, 0] == [True, False])
 
 
 ERR_RANK = {'admission': 0, 'perm': 1, 'temp': 2, 'err': 9}
@@ -329,7 +336,8 @@ def run_case(sc):
         else:
             res.fail('C18/patch-does-not-apply', msg)
         got_obj = None
-    if got_obj is not None and rfc.strip_empty(got_obj) != rfc.strip_empty(expected):
+    # (JSON equality, not Python's: true is not 1, and 2.0 is written as 2.0)
+    if got_obj is not None and json.dumps(rfc.strip_empty(got_obj), sort_keys=True) != json.dumps(rfc.strip_empty(expected), sort_keys=True):
         msg = (f'returned ops {ops} give {rfc.strip_empty(got_obj)}; the requested changes {model} '
                f'(+fns {[h["fns"] for h in selected]}) give {rfc.strip_empty(expected)}')
         if library_diff_is_wrong(obj, expected):
